@@ -229,7 +229,7 @@ func init() {
 			var out []core.Finding
 			var mu sync.Mutex
 			cc := core.NewCtx("C11", "quick", 1)
-			err := cc.RunSharded(cases, core.ShardOpts{Worker: "c11", Binary: bin, Env: []string{"GORACE=halt_on_error=1 exitcode=66"},
+			err := cc.RunSharded(cases, core.ShardOpts{Worker: "c11", Binary: bin, MaxCrashes: 24, Env: []string{"GORACE=halt_on_error=1 exitcode=66"},
 				OnOut: func(o core.WorkerOut, raw json.RawMessage) { mu.Lock(); out = append(out, o.Findings...); mu.Unlock() },
 				CrashClass: func(raw json.RawMessage, how string) core.Finding {
 					cl, what := raceClass(how)
@@ -253,9 +253,10 @@ func runC11(c *core.Ctx) error {
 	var cases []json.RawMessage
 	rounds := c.Pick(3, 30)
 	n := 0
+	ops := `{"Check","Example","GetAST","OpenAPI"}`
 	mkcfg := func(shared, pre bool, contents string) []byte {
 		b := map[bool]string{true: "TRUE", false: "FALSE"}
-		return []byte(fmt.Sprintf("SPECIFICATION Spec\nCONSTANTS\n  Procs = {1, 2}\n  OpsC = {\"Check\",\"Example\",\"GetAST\",\"OpenAPI\"}\n  ContentsC = %s\n  MaxProg = 2\n  Buffers = {\"b1\",\"b2\",\"b3\",\"b4\"}\n  Prechecked = %s\n  Shared = %s\nINVARIANTS NoBufferSharedByTwoProcesses NothingHeldOutsideCalls ResultsAreSequential OnceRunsOnce EmitWork\nCHECK_DEADLOCK FALSE\n", contents, b[pre], b[shared]))
+		return []byte(fmt.Sprintf("SPECIFICATION Spec\nCONSTANTS\n  Procs = {1, 2}\n  OpsC = "+ops+"\n  ContentsC = %s\n  MaxProg = 2\n  Buffers = {\"b1\",\"b2\",\"b3\",\"b4\"}\n  Prechecked = %s\n  Shared = %s\nINVARIANTS NoBufferSharedByTwoProcesses NothingHeldOutsideCalls ResultsAreSequential OnceRunsOnce EmitWork\nCHECK_DEADLOCK FALSE\n", contents, b[pre], b[shared]))
 	}
 	all4 := `{"usesT","orset","rich","big"}`
 	own := `{"usesT","orset"}` // own objects: the quick tier explores two contents (the product of contents squares the state space)
@@ -263,7 +264,10 @@ func runC11(c *core.Ctx) error {
 		own = all4
 	}
 	cfgFiles := map[string][]byte{"Concurrent_shared_prechecked.cfg": mkcfg(true, true, all4), "Concurrent_shared_fresh.cfg": mkcfg(true, false, all4), "Concurrent_own.cfg": mkcfg(false, true, own)}
-	for _, cfg := range []string{"Concurrent_shared_prechecked.cfg", "Concurrent_shared_fresh.cfg", "Concurrent_own.cfg"} {
+	// rejected schemas: the goroutines race for the first call on one object and every answer is a positioned diagnostic
+	ops = `{"Check","Len","GetAST","Example"}`
+	cfgFiles["Concurrent_shared_fresh_rejected.cfg"] = mkcfg(true, false, `{"badvalueCR","badscanCR","badrefLF"}`)
+	for _, cfg := range []string{"Concurrent_shared_prechecked.cfg", "Concurrent_shared_fresh.cfg", "Concurrent_own.cfg", "Concurrent_shared_fresh_rejected.cfg"} {
 		res, err := tlc.Run(tlc.Opts{Module: "Concurrent", Cfg: cfg, Workers: 16, HeapGB: 12, Timeout: 0, Files: cfgFiles, OnLine: func(l string) {
 			n++
 			var raw struct {
@@ -303,7 +307,7 @@ func runC11(c *core.Ctx) error {
 	var mu sync.Mutex
 	var traceLines [][]byte
 	traced := 0
-	err := c.RunSharded(cases, core.ShardOpts{Worker: "c11", Binary: bin, Env: []string{"GORACE=halt_on_error=1 exitcode=66"},
+	err := c.RunSharded(cases, core.ShardOpts{Worker: "c11", Binary: bin, MaxCrashes: 24, Env: []string{"GORACE=halt_on_error=1 exitcode=66"},
 		OnOut: func(o core.WorkerOut, raw json.RawMessage) {
 			if len(o.Lines) == 0 {
 				return
